@@ -31,6 +31,31 @@ class Analysis:
             rs = C.rstreams(S.members(case, path))
             self.zones.append((path, zone, C.cascade(rs)))
         self.site = self.zones[0][2] if self.zones else None
+        self._finite(out, prefix)
+
+    FINITE_COLS = ("T", "ΔT", "H_hot", "H_cold", "H_net", "H_net_np", "H_net_actual", "H_net_ut")
+
+    def _finite(self, out: Outcome, prefix: str):
+        """A NaN satisfies no inequality, so comparisons of the form |a - b| > tol would let it pass: every reported
+        target value, utility duty and always-populated table column is required to be finite first."""
+        import math
+
+        for path, zone in S.walk(self.master):
+            for key, t in zone.targets.items():
+                vals = {"Qh": t.hot_utility_target, "Qc": t.cold_utility_target, "Qr": t.heat_recovery_target}
+                for u in list(t.hot_utilities) + list(t.cold_utilities):
+                    vals[f"utility {u.name}"] = u.heat_flow
+                bad = [k for k, v in vals.items() if v is None or not math.isfinite(float(v))]
+                if key.endswith("/" + S.DI) and getattr(t, "pt", None) is not None:
+                    for col in self.FINITE_COLS:
+                        try:
+                            arr = t.pt.col[col]
+                        except Exception:  # noqa: BLE001
+                            continue
+                        if any(not math.isfinite(float(x)) for x in arr):
+                            bad.append(f"table column {col}")
+                if bad:
+                    out.fail(f"{prefix}.non_finite", f"record {key}: not a finite number: {bad[:6]}")
 
     def target(self, zone, kind):
         return zone.targets.get(f"{zone.name}/{kind}")
